@@ -285,6 +285,73 @@ def long_runs(ctx, rec):
     return fails
 
 
+def blocked_handler_restart(ctx, rec):
+    """stop()/start() while the frame handler is blocked (a consumer stuck in a send for longer than any join time-out a
+    maintainer might pick): real threads, the real `threading` module, real wall-clock blocking; after the restart the handler
+    must see start, start+1, ... exactly once each and only one worker may be alive.  The oracle does not depend on timing."""
+    import threading
+    import time as real_time
+    from harness.core import Failure
+    fails = []
+    if isinstance(rec, dict):      # replay of one stored scenario
+        todo = [(rec["start"], rec["blocked_for_s"])]
+        rec = None
+    else:
+        todo = [(H - 3, 1.6)] if ctx.tier == "quick" else [(H - 3, 1.6), (0, 3.2), (12345, 0.3)]
+    for (start_fn, block_s) in todo:
+        clck_gen.threading = threading
+        clck_gen.time = real_time
+        seen = []                  # (generation, fn, thread ident)
+        state = {"gen": 0, "block_at": 3}
+        entered, gate = threading.Event(), threading.Event()
+
+        def handler(fn):
+            seen.append((state["gen"], fn, threading.get_ident()))
+            if state["gen"] == 0 and len(seen) == state["block_at"]:
+                entered.set()
+                gate.wait(30)      # released by the timer below
+
+        gen = clck_gen.CLCKGen([], clck_start=start_fn, ind_period=51)
+        gen.clck_handler = handler
+        case = {"start": start_fn, "blocked_for_s": block_s}
+        try:
+            gen.start()
+            if not entered.wait(20):
+                raise HarnessError("handler never reached its blocking tick")
+            threading.Timer(block_s, gate.set).start()
+            gen.stop()             # the unchanged code waits here until the handler returns
+            state["gen"] = 1
+            n_before = len(seen)
+            gen.start()
+            gate.wait(30)          # (already released when stop() waited for the handler)
+            real_time.sleep(0.25)
+            gen.stop()
+            real_time.sleep(0.1)
+            after = seen[n_before:]
+            fns = [fn for (g, fn, t) in after]
+            want = [(start_fn + k) % H for k in range(len(fns))]
+            threads = set(t for (g, fn, t) in after)
+            if fns != want or len(threads) > 1:
+                raise Violation("c09:restart-while-handler-blocked", "after stop()/start() with a handler blocked for %.1f s the handler saw frames %r "
+                                "from %d worker thread(s); expected %r..." % (block_s, fns[:12], len(threads), want[:6]))
+            if len(fns) < 5:
+                raise HarnessError("restarted generator produced only %d ticks in 0.25 s" % len(fns))
+            if rec is not None:
+                rec.note(case, ["blocked-handler-restart"], True, {"ticks_after_restart": len(fns)})
+        except Violation as v:
+            if rec is None:
+                raise
+            fails.append(Failure("blocked_handler_restart", case, v.sig, v.msg))
+        finally:
+            gate.set()
+            try:
+                gen._breaker.set()
+            except Exception:
+                pass
+    return fails
+
+
 SUBS = [Sub("virtual_clock_runs", strategy=case_st(), oracle=oracle, examples={"quick": 1500, "thorough": 40000}),
-        Sub("long_runs", fn=long_runs)]
+        Sub("long_runs", fn=long_runs), Sub("blocked_handler_restart", fn=blocked_handler_restart)]
 SUBS[1].replay = oracle
+SUBS[2].replay = lambda case: blocked_handler_restart(None, case)
